@@ -68,6 +68,12 @@ def cases(draw):
         if t['pilot'] is not None and t.get('named') and draw(st.integers(0, 2)) == 0:
             t['raptor'] = True
     for t in tasks:
+        # tasks which were placed carry their slots in the record the client receives: in the
+        # agent scheduler's format, or - for a task a raptor worker ran - the worker's short form
+        if t['pilot'] is not None and t['state'] not in rps.FINAL and draw(st.integers(0, 2)) == 0:
+            t['slots'] = 'raptor' if t.get('raptor') and draw(st.booleans()) else \
+                         draw(st.sampled_from(['v1', 'raptor', 'old']))
+    for t in tasks:
         # a task whose executable failed carries that error already while it is still on its way
         # through output staging (not final yet)
         if t['pilot'] is not None and t['state'] not in rps.FINAL and draw(st.integers(0, 3)) == 0:
@@ -134,7 +140,20 @@ def run_case(case):
             upd['exception'] = 'RuntimeError("task failed")'
             upd['exception_detail'] = 'exit code: 1'
             res.label('nonfinal_task_with_recorded_error')
-        if task.state != t['state']:
+        if t.get('slots') and t['state'] in (rps.AGENT_EXECUTING, rps.AGENT_STAGING_OUTPUT_PENDING,
+                                             rps.AGENT_STAGING_OUTPUT, rps.TMGR_STAGING_OUTPUT_PENDING,
+                                             rps.TMGR_STAGING_OUTPUT):
+            if t['slots'] == 'raptor':
+                upd['slots'] = [{'cores': [1], 'gpus': []}]            # raptor/worker_default.py
+            elif t['slots'] == 'old':
+                upd['slots'] = [{'node_name': 'n0', 'node_index': 0, 'cores': [0, 1], 'gpus': [],
+                                 'lfs': 0, 'mem': 0}]
+            else:
+                upd['slots'] = [{'version': 1, 'node_name': 'n0', 'node_index': 0,
+                                 'cores': [{'index': 0, 'occupation': 1.0}], 'gpus': [],
+                                 'lfs': 0, 'mem': 0}]
+            res.label('bound_task_with_slots:%s' % t['slots'])
+        if task.state != t['state'] or 'slots' in upd:
             tm._update_tasks([upd])
         if task.state != t['state']:
             # could not even be set up: the model under test refused a forward move
